@@ -55,7 +55,10 @@ Inductive fstate :=
 
 (* what the terminal sees.  EWrite carries app._is_running and
    app._running_in_terminal at the moment of the write. *)
-Inductive ev := EErase | ERender | EWrite (s : text) (run interm : bool).
+Inductive ev := EErase | ERender | EWrite (s : text) (run interm : bool)
+| EFlush.   (* self._output.flush() of StdoutProxy._write_and_flush.write_and_flush: what was written
+               to the Output object reaches the terminal only now (Vt100_Output.write appends to
+               its _buffer, flush() writes the buffer to stdout) *)
 
 Inductive pay := PWrite (s : text) | PExt.
 Record sec := mksec { s_prev : option nat; s_own : nat; s_pay : pay }.
@@ -144,7 +147,7 @@ Definition start_sec (run : bool) (s : sec) (c : chain) (o : list ev) : chain * 
   match s_pay s with
   | PWrite t =>
       (mkch (nextf c) (lastf c) (s_own s :: donef c) (waitq c) (active c) (started c ++ [s_own s]),
-       o ++ [EErase; EWrite t run true] ++ redraw run)
+       o ++ [EErase; EWrite t run true; EFlush] ++ redraw run)
   | PExt =>
       (mkch (nextf c) (lastf c) (donef c) (waitq c) (Some (s_own s)) (started c ++ [s_own s]),
        o ++ [EErase])
@@ -201,6 +204,41 @@ Definition set_fth (p : proxy) (f : fstate) (h : list text) : proxy := mkpx (buf
 Definition set_loopq (e : env) (q : list text) : env :=
   mkenv (app e) (running e) (lid e) (lclosed e) q (ctx e) (patched e).
 
+(* ---- AppSession / contextvars: which application a callback sees ----
+   Session 0 is the default AppSession: what get_app_session() returns in a context that never
+   entered create_app_session() - e.g. the flush thread's own, empty, context.  The rig's
+   create_app_session() is session 1.  The proxy remembers its creator's session
+   (self.app_session, self._context); the application under consideration runs in that session
+   (_get_app_loop reads self.app_session.app, not a context variable). *)
+Definition sess_of (c : bool) : nat := if c then O else S O.
+Definition proxy_session (e : env) : nat := sess_of (ctx e).
+(* application.current.get_app_or_none() evaluated in a context whose current session is
+   [sess]: the .app of THAT session (is there one?) *)
+Definition get_app_or_none (sess : nat) (e : env) : bool := app e && Nat.eqb sess (proxy_session e).
+(* the session of the context in which a callback handed to loop.call_soon_threadsafe runs:
+   with context=self._context.copy() (HEAD, fix acce0d8) the proxy creator's; without it asyncio
+   copies the context of the calling thread - the flush thread - i.e. the default session *)
+Definition cb_session (with_context : bool) (e : env) : nat :=
+  if with_context then proxy_session e else O.
+
+(* the loop runs its oldest pending callback: write_and_flush_in_loop -> run_in_terminal ->
+   in_terminal: written directly (in_terminal's "yield; return" path, then write_and_flush's
+   own flush) only when get_app_or_none() finds no application, or it is no longer running AND
+   no earlier section is in progress or waiting; else chained *)
+Definition loop_step (with_context : bool) (s : st) : st :=
+  let p := px s in let e := en s in let c := ch s in let k := cp s in
+  if lclosed e then s else
+  match loopq e with
+  | [] => s
+  | t :: q =>
+      if get_app_or_none (cb_session with_context e) e && (running e || negb (fdone c (lastf c)))
+      then let (c', o') := submit (running e) (cpr_pending k) (PWrite t) c (out s) in
+           mkst p (set_loopq e q) c' o' (lost s) (submit_cpr (running e) (PWrite t) c k)
+      else mkst p (set_loopq e q) c
+                (out s ++ [EWrite t (running e) (match active c with Some _ => true | None => false end); EFlush])
+                (lost s) k
+  end.
+
 Definition step (s : st) (l : label) : st :=
   let p := px s in let e := en s in let c := ch s in let k := cp s in
   match l with
@@ -215,7 +253,7 @@ Definition step (s : st) (l : label) : st :=
       | FChosen acc dn None =>
           (* no loop: write_and_flush() in the flush thread itself *)
           mkst (set_fth p (after_batch dn) (handed p ++ [acc])) e c
-               (out s ++ [EWrite acc (running e) (match active c with Some _ => true | None => false end)])
+               (out s ++ [EWrite acc (running e) (match active c with Some _ => true | None => false end); EFlush])
                (lost s) k
       | FChosen acc dn (Some lk) =>
           if Nat.eqb lk (lid e) && negb (lclosed e)
@@ -224,7 +262,7 @@ Definition step (s : st) (l : label) : st :=
           else (* loop.call_soon_threadsafe on a closed loop raises RuntimeError, which is
                   caught: "there is no prompt anymore, write directly" *)
                mkst (set_fth p (after_batch dn) (handed p ++ [acc])) e c
-                    (out s ++ [EWrite acc (running e) (match active c with Some _ => true | None => false end)])
+                    (out s ++ [EWrite acc (running e) (match active c with Some _ => true | None => false end); EFlush])
                     (lost s) k
       | _ => s
       end
@@ -246,22 +284,7 @@ Definition step (s : st) (l : label) : st :=
       if negb (app e) && negb (lclosed e)
       then mkst p (mkenv false (running e) (lid e) true [] (ctx e) (patched e)) c (out s) (lost s ++ loopq e) k
       else s
-  | LLoopStep =>
-      if lclosed e then s else
-      match loopq e with
-      | [] => s
-      | t :: q =>
-          (* write_and_flush_in_loop (run in a copy of the proxy creator's context, so it
-             sees the application of the proxy's own session) -> run_in_terminal ->
-             in_terminal: written directly only when there is no application, or it is
-             no longer running AND no earlier section is in progress or waiting *)
-          if app e && (running e || negb (fdone c (lastf c)))
-          then let (c', o') := submit (running e) (cpr_pending k) (PWrite t) c (out s) in
-               mkst p (set_loopq e q) c' o' (lost s) (submit_cpr (running e) (PWrite t) c k)
-          else mkst p (set_loopq e q) c
-                    (out s ++ [EWrite t (running e) (match active c with Some _ => true | None => false end)])
-                    (lost s) k
-      end
+  | LLoopStep => loop_step true s
   | LRender =>
       if app e && running e && match active c with None => true | Some _ => false end
       then mkst p e c (out s ++ [ERender]) (lost s) k else s
@@ -336,6 +359,13 @@ Definition step_pinned (s : st) (l : label) : st :=
   end.
 Definition run_pinned (s : st) (ls : list label) : st := fold_left step_pinned ls s.
 
+(* The loop step as it was before fix acce0d8 (call_soon_threadsafe without context=): the
+   callback runs in a copy of the flush thread's context and asks the DEFAULT session for
+   its application. *)
+Definition step_noctx (s : st) (l : label) : st :=
+  match l with LLoopStep => loop_step false s | _ => step s l end.
+Definition run_noctx (s : st) (ls : list label) : st := fold_left step_noctx ls s.
+
 Definition enabled (s : st) (l : label) : bool :=
   let p := px s in let e := en s in let c := ch s in
   match l with
@@ -378,6 +408,32 @@ Fixpoint writes (ls : list label) : list (Z * text) :=
 
 Definition ev_text (e : ev) : text := match e with EWrite s _ _ => s | _ => [] end.
 Definition out_text (s : st) : text := concat (map ev_text (out s)).
+(* What has reached the TERMINAL: Output.write only appends to the Output object's buffer; the
+   buffer goes to the terminal at the next flush - write_and_flush's own (EFlush), or the one
+   at the end of Renderer.erase / Renderer.render (EErase, ERender).
+   tscan: (text on the terminal, text written to the Output but not flushed yet) *)
+Definition tstep (a : text * text) (e : ev) : text * text :=
+  match e with
+  | EWrite s _ _ => (fst a, snd a ++ s)
+  | _ => (fst a ++ snd a, [])
+  end.
+Definition tscan (o : list ev) : text * text := fold_left tstep o ([], []).
+Definition term_text (s : st) : text := fst (tscan (out s)).
+(* StdoutProxy(raw=...): write_and_flush calls self._output.write_raw(text) when raw, else
+   self._output.write(text); Vt100_Output.write is `self._buffer.append(data.replace("\x1b", "?"))`,
+   write_raw appends the data as it is.  No step of the proxy reads `raw` otherwise, so it is a
+   parameter of what the terminal receives, not part of the state. *)
+Definition vt_write (raw : bool) (t : text) : text :=
+  if raw then t else map (fun c => if Z.eqb c 27 then 63 else c) t.
+(* the bytes the terminal has received / the bytes each write event appended to the Output buffer *)
+Definition term_bytes (raw : bool) (s : st) : text := vt_write raw (term_text s).
+Fixpoint ev_bytes (raw : bool) (o : list ev) : list text :=
+  match o with
+  | [] => []
+  | EWrite t _ _ :: r => vt_write raw t :: ev_bytes raw r
+  | _ :: r => ev_bytes raw r
+  end.
+Definition pending_text (s : st) : text := snd (tscan (out s)).
 Definition pay_text (p : pay) : text := match p with PWrite s => s | PExt => [] end.
 Definition wait_text (c : chain) : text := concat (map (fun x => pay_text (s_pay x)) (waitq c)).
 Definition item_text (i : item) : text := match i with ITxt s => s | IDone => [] end.
@@ -403,6 +459,7 @@ Definition brk_step (m : option bool) (e : ev) : option bool :=
       | EErase => Some true
       | ERender => Some false
       | EWrite _ run _ => if erased || negb run then Some erased else None
+      | EFlush => Some erased
       end
   end.
 Definition brk_run (l : list ev) : option bool := fold_left brk_step l (Some false).
@@ -429,6 +486,31 @@ Definition no_lifecycle (l : label) : bool :=
 Definition app_alive (l : label) : bool :=
   match l with LAppStart | LAppStop | LLoopClose | LPW _ _ | LPFlush _ => false | _ => true end.
 
+(* Loop validity, the hypothesis under which the property is claimed ACROSS application
+   start / stop / loop close: every result of _get_app_loop() is still right when
+   _write_and_flush uses it, and the application stops with no callback pending.  Said at the
+   life-cycle label: an application does not start between a `_get_app_loop() -> None` and the
+   `_write_and_flush(None, text)` that uses it; run_async does not return between a
+   `_get_app_loop() -> loop` and its `_write_and_flush(loop, text)`, nor while a callback handed
+   to the loop has not run yet.  (Exactly what the start/stop race witnesses w_start / w_stop
+   violate.)  Lists are desugared (no LPW/LPFlush), as for no_lifecycle / app_alive. *)
+Definition safe (s : st) (l : label) : bool :=
+  match l with
+  | LAppStart =>
+      negb (enabled s LAppStart) || match fth (px s) with FChosen _ _ None => false | _ => true end
+  | LAppStop =>
+      negb (enabled s LAppStop) ||
+      (match fth (px s) with FChosen _ _ (Some _) => false | _ => true end &&
+       match loopq (en s) with [] => true | _ :: _ => false end)
+  | LPW _ _ | LPFlush _ => false
+  | _ => true
+  end.
+Fixpoint valid (s : st) (ls : list label) : bool :=
+  match ls with
+  | [] => true
+  | l :: r => safe s l && valid (step s l) r
+  end.
+
 (* ---- wire format ---- *)
 Definition sx_nat (n : nat) : sx := A (Z.of_nat n).
 Definition sx_onat (o : option nat) : sx := sx_opt sx_nat o.
@@ -447,6 +529,7 @@ Definition sx_ev (e : ev) : sx :=
   | EErase => L [A 0]
   | ERender => L [A 1]
   | EWrite s r i => L [A 2; sx_str s; sx_bool r; sx_bool i]
+  | EFlush => L [A 3]
   end.
 
 Definition obs (s : st) : sx :=
@@ -463,9 +546,9 @@ Definition obs (s : st) : sx :=
    and shows up as a correspondence difference. *)
 Definition unlocked_accesses (s : st) : nat := O.
 
-Definition final_obs (s : st) : sx :=
+Definition final_obs (raw : bool) (s : st) : sx :=
   L [ sx_list sx_ev (out s); sx_list sx_str (lost s); sx_list sx_str (handed (px s));
-      sx_nat (unlocked_accesses s) ].
+      sx_nat (unlocked_accesses s); sx_list sx_str (ev_bytes raw (out s)); sx_str (term_bytes raw s) ].
 
 Definition nat_of_sx (x : sx) : option nat :=
   match x with A z => if Z.ltb z 0 then None else Some (Z.to_nat z) | _ => None end.
@@ -519,7 +602,7 @@ Fixpoint run_obs (s : st) (steps : list (label * bool)) (acc : list sx) : st * l
 (* case: (0 ctx steps) -> ((obs ...) final) ;  (1 ctx labels candidates) -> enabled flags *)
 (* configuration of a case: bit 0 = proxy created in the default session,
    bit 1 = the output responds to cursor position requests, bit 2 = rig only *)
-Definition cfg_of_sx (x : sx) : option (bool * bool) :=
+Definition cfg_of_sx4 (x : sx) : option (bool * bool) :=
   match x with
   | A 0 => Some (false, false) | A 1 => Some (true, false)
   | A 2 => Some (false, true) | A 3 => Some (true, true)
@@ -529,18 +612,26 @@ Definition cfg_of_sx (x : sx) : option (bool * bool) :=
   | A 6 => Some (false, true) | A 7 => Some (true, true)
   | _ => None
   end.
+(* bit 3 = the proxy is StdoutProxy(raw=True) *)
+Definition cfg_of_sx (x : sx) : option (bool * bool * bool) :=
+  match x with
+  | A z => if Z.leb 8 z
+           then match cfg_of_sx4 (A (z - 8)) with Some (c, r) => Some (c, r, true) | None => None end
+           else match cfg_of_sx4 (A z) with Some (c, r) => Some (c, r, false) | None => None end
+  | _ => None
+  end.
 
 Definition run_C20 (x : sx) : sx :=
   match x with
   | L [A 0; c; L steps] =>
       match cfg_of_sx c, map_opt step_of_sx steps with
-      | Some (c', r), Some steps' =>
-          let (s, os) := run_obs (init2 c' r) steps' [] in L [L os; final_obs s]
+      | Some (c', r, w), Some steps' =>
+          let (s, os) := run_obs (init2 c' r) steps' [] in L [L os; final_obs w s]
       | _, _ => bad_case
       end
   | L [A 1; c; L ls; L cands] =>
       match cfg_of_sx c, map_opt label_of_sx ls, map_opt label_of_sx cands with
-      | Some (c', r), Some ls', Some cands' =>
+      | Some (c', r, _), Some ls', Some cands' =>
           let s := run (init2 c' r) ls' in
           L [sx_bool (all_enabled (init2 c' r) ls'); sx_list (fun l => sx_bool (enabled s l)) cands']
       | _, _, _ => bad_case
